@@ -382,6 +382,29 @@ func init() {
 			"checked only where the layer fit terminates (stencil narrower than the grid), as in the property's quantifier",
 		},
 		Gen: genC14, Check: checkC14, Classify: classifyC14, Sweep: sweepC14,
+		// a corridor must not depend on corridors converted before: for one case in three, the same segment is
+		// translated along its row (same zooms, bit-identical radius, other columns - near and ~0.18 degrees away), and
+		// the original is checked again afterwards
+		Related: func(c *CaseC14) []*CaseC14 {
+			if c.H < 4 || c.Radius.V() <= 0 || math.Float64bits(c.S.Lon.V())%3 != 0 {
+				return nil
+			}
+			wl, _, _ := localSizes(c.S, c.H, c.V)
+			var out []*CaseC14
+			for _, k := range []float64{3, math.Max(5, math.Ldexp(1, int(c.H)-11))} {
+				d := k * wl
+				if math.Max(c.S.Lon.V(), c.E.Lon.V())+d > 179.9 {
+					d = -d
+				}
+				r := *c
+				r.S.Lon, r.E.Lon = F64(c.S.Lon.V()+d), F64(c.E.Lon.V()+d)
+				if math.Abs(r.S.Lon.V()) > 179.9 || math.Abs(r.E.Lon.V()) > 179.9 {
+					continue
+				}
+				out = append(out, &r)
+			}
+			return out
+		},
 		SweepScopes: func(tier string) []string {
 			return []string{"Tokyo scenario: hZoom in {4,18,23,31} x radius in {0, 0.3, 1.2} voxel widths"}
 		},
